@@ -30,7 +30,7 @@ RFTSTUB = "read_from_tree: yields the harness' arbitrary command code (< NUM_COD
 
 def cmd_h(tag, defs, maxlen, flags=(), tier="both", timeout=300, mem_gb=4, bounds=""):
     return dict(name="cmd." + tag, src="C01/cmd.c", defines=defs, rename_defs=rn(RFT),
-                unwindset={"copy_from_history.0": maxlen + 1, "bs_ref.0": 16, "harness.0": 5, "harness.1": 65, "harness.2": maxlen + 1, "harness.3": 65},
+                unwindset={"copy_from_history.0": maxlen + 1, "bs_ref.0": 16, "harness.0": 5, "harness.1": 65, "harness.2": 65},
                 flags=list(flags), tier=tier, timeout=timeout, mem_gb=mem_gb, bounds=bounds, stubs=[SPECSTUB, RFTSTUB],
                 units=["lib/lh_new_decoder.c:lha_lh_new_read,read_code,copy_from_history,read_offset_code,output_byte"
                        + (",lhark_decode_copy_count,lhark_read_offset_code" if "LK" in defs or "REAL_LK7" in defs else "")])
@@ -60,8 +60,8 @@ HARNESSES = [
     # ---- H01.cmd
     cmd_h("t32", ["HB=4", "OB=3", "LENMAX=32"], 32, tier="thorough", timeout=200),
     cmd_h("t64", ["HB=4", "OB=3", "LENMAX=64"], 64, tier="thorough", timeout=200),
-    cmd_h("t32a", ["HB=4", "OB=3", "LENMAX=32", "ALLIDX"], 32, tier="thorough", timeout=200),
-    cmd_h("t64a", ["HB=4", "OB=3", "LENMAX=64", "ALLIDX"], 64, tier="thorough", timeout=200),
+    cmd_h("t32s", ["HB=4", "OB=3", "LENMAX=32", "SPLITPOS"], 32, tier="thorough", timeout=200),
+    cmd_h("t64s", ["HB=4", "OB=3", "LENMAX=64", "SPLITPOS"], 64, tier="thorough", timeout=200),
     cmd_h("hb4", ["HB=4", "OB=3"], 256, tier="both", timeout=300,
           bounds="template instantiated at HISTORY_BITS 4 (16-byte ring): window, position, code (literal / every length 3..256), offset symbol 0..4 and extra bits all symbolic; the ring wraps up to 16 times"),
     cmd_h("hb6", ["HB=6", "OB=3"], 256, tier="both", timeout=600,
